@@ -329,3 +329,30 @@ def fresh(
             ctrl.network_stack = network_stack_cls(ctrl._executor)
     conn = LoopConnection(app_name, ctrl, **conn_kw)
     return ctrl, conn
+
+
+def read_registers(ex, app_id) -> Dict[str, int]:
+    """the application's defined registers, read the way instructions read them (independent of how the executor stores them)"""
+    from netqasm.lang.encoding import RegisterName
+    from netqasm.lang.operand import Register
+
+    out = {}
+    for bank in RegisterName:
+        for idx in range(16):
+            v = ex._get_register(app_id, Register(bank, idx))
+            if v is not None:
+                out[f"{bank.name}{idx}"] = v
+    return out
+
+
+def read_shared_registers(shm) -> Dict[str, int]:
+    from netqasm.lang.encoding import RegisterName
+    from netqasm.lang.operand import Register
+
+    out = {}
+    for bank in RegisterName:
+        for idx in range(16):
+            v = shm.get_register(Register(bank, idx))
+            if v is not None:
+                out[f"{bank.name}{idx}"] = v
+    return out
